@@ -4,7 +4,8 @@ import Verif.Model.AcmeConc
   Line-protocol driver for C10 (ACME object state machine).
 
   One history per line: `ops=<op>;<op>;…` (other fields, e.g. `case=`, are ignored). Ops:
-    n:<acct>:<now>:<k.k.…|->          new order, k = number of challenges of each identifier (`1a`: one device-attest-01)
+    n:<acct>:<now>:<k.k.…|->          new order, k = number of challenges of each identifier (`1a`: one device-attest-01;
+                                      a leading `w`: a Wire order)
     t:<acct>:<chal>:<authz>:<now>:<s<k>|j|t|d>  respond to a device-attest-01 challenge through the URL of <authz>;
                                       s<k>: valid attestation of key number k
     r:<acct>:<chal>:<now>:<s|t|j|d>   respond to a challenge; validator verdict success / retry / reject / db error
@@ -16,7 +17,9 @@ import Verif.Model.AcmeConc
                                       signs, final UpdateOrder fails (0/1 each)
     l:<acct>:<urlacct>:<now>          list the account's orders
   any op may carry a storage fault suffix `!c<k>` / `!a<k>` / `!o<k>`: every update write of
-  challenge / authorization / order k fails while the request runs
+  challenge / authorization / order k fails while the request runs; `!x<k>`: the k-th create write
+  (challenge / authorization / order) of the request fails; `!i`: the write of the account's order index
+  fails; `!k`: the write of the Wire token fails
   A line `conc=reread|original|claim ths=<f|p>.<f|p>… sched=<i>.<i>…` runs the interleaving model
   (Verif.AcmeConc) instead: output `conc<certificates>:<stored status after every step>`.
   Output: `T<total certificates>:<step>|<step>|…`, one step per op:
@@ -41,8 +44,10 @@ def idSpec? (k : String) : Option (Nat × Bool) :=
 def op? (t : String) : Option Op :=
   match t.splitOn ":" with
   | ["n", a, n, ks] => do
+    let wire := ks.startsWith "w"
+    let ks := if wire then (ks.drop 1).toString else ks
     let ks ← if ks = "-" then some [] else (ks.splitOn ".").mapM idSpec?
-    pure (.newOrder (← nat? a) (← nat? n) ks)
+    pure (.newOrder (← nat? a) (← nat? n) ks wire)
   | ["t", a, c, z, n, o] => do
     let out ← match o with
       | "s" => some Outcome.success | "t" => some .retry | "j" => some .reject | "d" => some .dbError
@@ -73,6 +78,9 @@ def deny? (t : String) : Option Deny :=
   | 'c' :: r => (String.ofList r).toNat?.map .chal
   | 'a' :: r => (String.ofList r).toNat?.map .authz
   | 'o' :: r => (String.ofList r).toNat?.map .order
+  | 'x' :: r => (String.ofList r).toNat?.map .create
+  | ['i'] => some .index
+  | ['k'] => some .token
   | _ => none
 
 def req? (t : String) : Option Req :=
